@@ -21,4 +21,10 @@ PROPS = {
                          "net.FileListener / the kernel decide whether a descriptor is a listening socket (parameter `kind` of the model)"],
         "assumptions": ["the harness child process observes the listener chosen by Bind through GetListener().Addr() and a GetInfo round trip"],
     },
+    "C19": {
+        "streams": streams(("addr", 1500, 40000)),
+        "rule": "address grammar: protocol in {unix, tcp, unixpacket, tcp4, udp, UNIX, 'unix ', '', missing} x path/host forms (empty, '@name', '@', absolute in a scratch dir, relative, missing directory, over-long, path containing ':', tcp host:port good and bad) with and without ';tail' (tails containing ':' and ';'), plus random strings; pre-existing stale socket / regular file at the path; 1-3 binds on one service object followed by a known-good bind; per successful bind a DoListen + NewConnection(same string) + GetInfo + Shutdown cycle; non-trivial = a string with at least 2 separators",
+        "trusted_base": ["net.Listen / net.Dial / the file system are the environment of the model (a valid address may still fail to bind; generated endpoints known to be listenable must bind)"],
+        "assumptions": ["error classes are recognised by the three fixed error texts of Bind/parseAddress"],
+    },
 }
